@@ -7,14 +7,19 @@ WHAT = 'resize() racing submissions never loses, duplicates or strands a task'
 
 def run(ctx):
     thorough = ctx.tier == 'thorough'
-    ctx.check_model(pc.SPEC, 'MCPool.tla', 'MC_c08.cfg', WHAT, label='ring fast path racing a shrinking resize (2 workers)',
-                    workers=8, vacuity_exempt=VAC, timeout=1500)
+    ctx.check_model(pc.SPEC, 'MCPool.tla', 'MC_q2_c08.cfg', WHAT, label='ring submission followed by a growing resize', workers=6,
+                    vacuity_exempt=VAC, timeout=900)
+    sims = [('MC_q2_c03.cfg', 'ring fast path racing a resize 1->2 (simulation)', 45)]
     if thorough:
-        r = ctx.tlc(pc.SPEC, 'MCPool.tla', 'MC_c03.cfg', workers=8, simulate=4000, depth=400, timeout=900,
-                    label='3 workers: ring fast path racing resize 3->2 (simulation)')
+        ctx.check_model(pc.SPEC, 'MCPool.tla', 'MC_q2_c03.cfg', WHAT, label='ring fast path racing a resize 1->2', workers=12,
+                        vacuity_exempt=VAC, timeout=3000, heap='16g')
+        sims = [('MC_c03.cfg', '3 workers: ring fast path racing resize 3->2 (simulation)', 600),
+                ('MC_c08.cfg', '2 workers: ring fast path racing resize 2->1 (simulation)', 300)]
+    for cfg, lab, secs in sims:
+        r = ctx.tlc(pc.SPEC, 'MCPool.tla', cfg, workers=6, simulate=100000000, depth=600, timeout=secs, label=lab)
         if r.violation:
             path = ctx.save_replay('C03-sim.txt', r.counterexample())
-            ctx.violation('model:MC_c03:' + r.violation, WHAT + ': ' + r.violation, path)
+            ctx.violation('model:%s:%s' % (cfg, r.violation), WHAT + ': ' + r.violation, path)
     exe = pc.build(ctx, 2)
     rng = random.Random(ctx.seed + 3)
     progs = ['main:new2,up,fq1,bulk2.2,sched4,sync,del;p2:up,resize1,resize3',
